@@ -12,6 +12,67 @@ from sa.schema import Facts
 LT1, LT, LE, UNK = 3, 2, 1, 0     # s+1 < B  =>  s < B  =>  s <= B
 
 
+def _typestate(cfg, buf, size, cur):
+    def edge_fact(node, lab):
+        if node.kind != "cond" or node.ast is None:
+            return None
+        t = estr(node.ast)
+        if t == "(%s >= %s)" % (cur, size) and lab is False:
+            return LT
+        if t == "(%s < %s)" % (cur, size) and lab is True:
+            return LT
+        if t == "((%s + 1) >= %s)" % (cur, size) and lab is False:
+            return LT1
+        return None
+
+    def transfer(node, st):
+        a = node.ast
+        if a is None or node.kind not in ("stmt",):
+            return st
+        for x in walk(a):
+            if x.k == "UnaryOperator" and x.op == "++" and estr(x.kids[0]) == cur:
+                st = {LT1: LT, LT: LE}.get(st, UNK)
+            elif x.k == "CompoundAssignOperator" and estr(x.kids[0]) == cur:
+                st = UNK
+            elif is_assign(x) and estr(x.kids[0]) == cur:
+                st = LE if estr(x.kids[1]) == "0" else UNK
+            elif x.k == "VarDecl" and x.name == cur and x.kids and x.kids[-1] is not None:
+                st = LE if estr(x.kids[-1]) == "0" else UNK
+        return st
+    state = {n: None for n in cfg.nodes}
+    state[cfg.entry] = UNK
+    work = [cfg.entry]
+    while work:
+        n = work.pop()
+        out = transfer(n, state[n])
+        for s_, lab in n.succ:
+            v = out
+            ef = edge_fact(n, lab)
+            if ef is not None:
+                v = max(v, ef)
+            old = state[s_]
+            new = v if old is None else min(old, v)
+            if new != old:
+                state[s_] = new
+                work.append(s_)
+    return state
+
+
+def typestate_stores(cfg, buf, size, cur):
+    """[bool] per store buf[cur] in CFG order: is `cur < size` established when the store executes?"""
+    state = _typestate(cfg, buf, size, cur)
+    out = []
+    for n in cfg.nodes:
+        if n.ast is None or n.kind != "stmt":
+            continue
+        for x in walk(n.ast):
+            if is_assign(x):
+                l = strip(x.kids[0])
+                if l is not None and l.k == "ArraySubscriptExpr" and estr(l.kids[0]) == buf and estr(l.kids[1]) == cur:
+                    out.append((x.b, (state[n] or UNK) >= LT))
+    return [v for _, v in sorted(out)]
+
+
 def bounded_writes(ctx, P, rule="NEWICK-BOUNDED"):
     ctx.rule(rule, "in tsk_newick_converter_run every store buffer[s] is reached only with s < buffer_size established since the "
                    "last change of s, buffer[s + 1] only with s + 1 < buffer_size, and every snprintf writes at buffer + s with "
